@@ -78,6 +78,7 @@ pub struct Strat {
     pub max_spurious: u32,
     pub parallelism: u64,
     pub freeze: Option<(usize, u64)>, // (thread, k): stop thread at its k-th scheduling point
+    pub freeze_kind: u32,             // 0 = count every scheduling point of the victim, else only those of this hook kind
     pub freeze_solo: bool,            // until it freezes the victim runs alone (from freeze_from on)
     pub freeze_from: u32,             // ... counting only the scheduling points it reaches from this phase on
     pub lockspin_all: bool,           // every thread may execute lock attempts that fail (a peer frozen inside a critical section)
@@ -101,6 +102,7 @@ impl Default for Strat {
             freeze: None,
             freeze_from: 0,
             freeze_solo: false,
+            freeze_kind: 0,
             tick_after: 40,
             lockspin_all: false,
             script: vec![],
@@ -620,7 +622,7 @@ pub fn point(kind: u32, addr: usize, a: u64, b: u64) -> u64 {
     let mut s = g().m.lock().unwrap();
     s.pending[me] = Some(Pending { kind, addr, a, b });
     s.st[me] = TSt::AtHook;
-    if s.phase >= s.strat.freeze_from {
+    if s.phase >= s.strat.freeze_from && (s.strat.freeze_kind == 0 || s.strat.freeze_kind == kind) {
         s.hooks_seen[me] += 1;
         s.apply_freeze(me);
     }
